@@ -731,14 +731,32 @@ NARY_ARITY = {'Vector3.from_scalars': [3], 'Pair.from_scalars': [2], 'Matrix.fro
 
 
 def nary_components(case, units=True):
+    """components of an n-ary combiner; `dt` gives each component's data type independently:
+    'f' float, 'i' int, 'b' bool (a Boolean / True — only possible for a component without units, else int)"""
     fn = case['fn']
+    dts = case.get('dt') or 'f' * len(case['us'])
     comps = []
-    for i, (u, plain) in enumerate(zip(case['us'], case['plain'])):
+    for i, (u, plain, dt) in enumerate(zip(case['us'], case['plain'], dts)):
         uu = build(u) if units else None
+        if dt == 'b' and u is not None:
+            dt = 'i'
         if fn.startswith('stack:'):
-            comps.append(make(fn.split(':')[1], case['shape'], uu, scale=1.0 + 0.5 * i))
+            cls = fn.split(':')[1]
+            if cls == 'Scalar' and dt == 'b':
+                comps.append(Boolean(np.full(tuple(case['shape']), i % 2 == 0)))
+            elif cls == 'Scalar' and dt == 'i':
+                comps.append(Scalar(np.full(tuple(case['shape']), 1 + i, dtype=int), units=uu))
+            elif cls == 'Pair' and dt == 'i':
+                vals = np.broadcast_to(np.array([1 + i, 2 + i]), tuple(case['shape']) + (2,)).copy()
+                comps.append(Pair(vals, units=uu))
+            else:
+                comps.append(make(cls, case['shape'], uu, scale=1.0 + 0.5 * i))
         elif plain and u is None:
-            comps.append(1.0 + 0.5 * i)              # a plain Python number: no units
+            comps.append(1.0 + 0.5 * i if dt == 'f' else 1 + i if dt == 'i' else (i % 2 == 0))   # plain Python value
+        elif dt == 'b':
+            comps.append(Boolean(np.full(tuple(case['shape']), i % 2 == 0)))
+        elif dt == 'i':
+            comps.append(Scalar(np.full(tuple(case['shape']), 1 + i, dtype=int), units=uu))
         else:
             comps.append(sc(case['shape'], uu, 1.0 + 0.5 * i))
     return comps
@@ -764,7 +782,7 @@ def judge_nary(case, obs, info, fail):
     refs = [R.ref_of(u) for u in case['us']]
     present = [(i, x) for i, x in enumerate(refs) if x is not None]
     conflict = [(i, j) for a, (i, x) in enumerate(present) for (j, y) in present[a + 1:] if x[0] != y[0]]
-    where = '%s of %d components with units %s' % (case['fn'], len(refs), case['us'])
+    where = '%s of %d components with units %s and data types %s' % (case['fn'], len(refs), case['us'], case.get('dt', 'f' * len(refs)))
     if conflict:
         if not isinstance(exc, ValueError):
             i, j = conflict[0]
